@@ -320,6 +320,11 @@ func (te *TemplateEngine) RenderToDocument(templateName string, data *TemplateDa
 		return nil, WrapErrorWithContext("render_to_document", err, templateName)
 	}
 
+	return te.renderToDocument(template, templateName, data)
+}
+
+// renderToDocument 渲染已取得的模板到新文档
+func (te *TemplateEngine) renderToDocument(template *Template, templateName string, data *TemplateData) (*Document, error) {
 	// 创建新文档
 	var doc *Document
 	if template.BaseDoc != nil {
@@ -1793,8 +1798,8 @@ func (te *TemplateEngine) RenderTemplateToDocument(templateName string, data *Te
 		return doc, nil
 	}
 
-	// 如果没有基础文档，使用原有的方式
-	return te.RenderToDocument(templateName, data)
+	// 如果没有基础文档，使用原有的方式（使用已取得的模板，不再二次查找缓存）
+	return te.renderToDocument(template, templateName, data)
 }
 
 // replaceVariablesInDocument 在文档结构中直接替换变量
